@@ -675,10 +675,11 @@ class kMinPathError(pathmodel.AbstractPathModelDAG):
         - `exception` If model is not solved.
         """
 
+        # A cached solution is only served by a model that is (still) solved
+        self.check_is_solved()
+
         if self._solution is not None:
             return self._remove_empty_paths(self._solution) if remove_empty_paths else self._solution
-
-        self.check_is_solved()
 
         if self.solution_weights_superset is None:
             weights_sol_dict = self.solver.get_values(self.path_weights_vars)
